@@ -6,6 +6,7 @@ from collections import defaultdict
 from dataclasses import dataclass, field
 from functools import partial
 import hashlib
+import re
 import os
 from typing import (
     Literal,
@@ -212,6 +213,9 @@ class ProcessingItemBase:
             content.append(str(getattr(self, "field_name_condition_negation", False)))
 
         content_str = "|".join(content) if content else str(id(self))
+        # object representations may contain memory addresses (template objects, functions): these
+        # are not part of the item's definition and differ with every process start
+        content_str = re.sub(r"(?: at 0x|memory:)[0-9a-fA-F]+", "", content_str)
         return hashlib.sha256(content_str.encode()).hexdigest()[:16]
 
     def _resolve_condition_expression(
